@@ -632,7 +632,7 @@ pub fn run(cfg: &Cfg, rep: &mut Report) -> PropMeta {
     }
     PropMeta {
         id: "C17", level: "exploration",
-        rule: "scenarios: one fresh shared Decryptor decrypting ciphertexts of sizes (2,3) (3,5) (3,3) (2,3,5) (5,3,2,4); one shared KeyGenerator with concurrent relin/Galois key generation and requests for key powers (2,3) (3,4) (4,2,3); one shared evaluator/context with concurrent Galois maps on a cold permutation-table cache (same / different elements, 2-4 threads). (A) every interleaving of the hooked yield points for 2 threads, bounded DFS + seeded random schedules for 3-4 threads; (B) real-parallel stress with random micro-delays at the hook sites; (C) the stress workload in a ThreadSanitizer build (thorough: a 2-thread scenario under Miri with several seeds). distinct = distinct schedules (hash of the release sequence) + distinct hook-order signatures seen under stress",
+        rule: "scenarios: one fresh shared Decryptor decrypting ciphertexts of sizes (2,3) (3,5) (3,3) (2,3,5) (5,3,2,4); one shared KeyGenerator with concurrent relin/Galois key generation and requests for key powers (2,3) (3,4) (4,2,3); one shared evaluator/context with concurrent Galois maps on a cold permutation-table cache (same / different elements, 2-4 threads). (A) every interleaving of the hooked yield points for 2 threads, bounded DFS + seeded random schedules for 3-4 threads; (B) real-parallel stress with random micro-delays at the hook sites; (C) the stress workload in a ThreadSanitizer build (thorough: a 2-thread scenario under Miri with several seeds). distinct = distinct schedules (hash of the release sequence) + distinct hook-order signatures seen under stress. Five further evaluator scenarios race ciphertext rotations with plaintext-side automorphisms (apply_galois_plain* on an NTT-form plaintext) of the same / another element through the shared permutation-table cache",
         assumptions: vec!["yield points sit only where the library holds no lock, so serialising threads there cannot create interleavings the program cannot have".into(),
             "deadlock is decided as bounded progress: no thread reaches a yield point or its end within 20 s (scheduler) / 30 s (stress)".into(),
             "interleavings inside a lock phase are not enumerated; ThreadSanitizer / Miri cover data races there, not orderings".into(),
